@@ -69,7 +69,7 @@ theorem invG_step (s s' : PSys) (e : Event) (h : applyEvent s e = .ok s') (hG : 
     · cases h; exact hG
     · cases h
 
-theorem invG_reach (c0 : Cfg) (s : PSys) (h : ReachC c0 s) : InvG s := by
+theorem invG_reachC (c0 : Cfg) (s : PSys) (h : ReachC c0 s) : InvG s := by
   induction h with
   | init => exact invG_init
   | step e _ _ hs ih => exact invG_step _ _ e hs ih
@@ -82,7 +82,7 @@ theorem invG_reach' (s : PSys) (h : Reach s) : InvG s := by
 /-! ### helpers -/
 
 /-- a generated grant of node `i` is of a term not beyond the node's -/
-theorem grant_term_le {c0 : Cfg} {s : PSys} (hV : InvV c0 (vsys s)) {i t v cd : Nat} {gh : VGhost}
+theorem grant_term_le {s : PSys} (hV : InvV (vsys s)) {i t v cd : Nat} {gh : VGhost}
     (h : OMsg.grant t v cd gh ∈ (s.nodes i).outbox) : t ≤ (s.nodes i).term := by
   have hm : (⟨t, v, cd⟩ : Grant) ∈ ((vsys s).nodes i).og := by
     simp only [vsys, vproj]
@@ -90,7 +90,7 @@ theorem grant_term_le {c0 : Cfg} {s : PSys} (hV : InvV c0 (vsys s)) {i t v cd : 
   exact (hV.gu i ⟨t, v, cd⟩ (Or.inl hm)).2.1
 
 /-- a released grant record of voter `v` is of a term not beyond `v`'s -/
-theorem rgrant_term_le {c0 : Cfg} {s : PSys} (hV : InvV c0 (vsys s)) (hG : InvG s) {p : Grant × VGhost}
+theorem rgrant_term_le {s : PSys} (hV : InvV (vsys s)) (hG : InvG s) {p : Grant × VGhost}
     (hp : p ∈ s.rgv) : p.1.term ≤ (s.nodes p.1.voter).term :=
   (hV.gu p.1.voter p.1 (Or.inr ⟨hG p hp, rfl⟩)).2.1
 
@@ -194,7 +194,7 @@ theorem invC2_nodes_eq {s s' : PSys} (hL : InvL s) (hC1 : InvC1 s) (h2 : InvC2 s
   invC2_same hL hC1 h2 g 0 (s.nodes 0) (by rw [hn, upd_self]) hr rfl rfl rfl
 
 /-- the node generates an acknowledgement (of its current term) -/
-theorem invC2_genack {c0 : Cfg} {s s' : PSys} (hV : InvV c0 (vsys s)) (hG : InvG s)
+theorem invC2_genack {s s' : PSys} (hV : InvV (vsys s)) (hG : InvG s)
     (hL : InvL s) (hC1 : InvC1 s) (h2 : InvC2 s) (g : Grow s s')
     (i : Nat) (n : PNode) (hn : s'.nodes = upd s.nodes i n) (hr : s'.rgv = s.rgv)
     (x : Nat) (pre' : List LEntry)
@@ -336,11 +336,11 @@ theorem invC2_init : InvC2 init := by
 set_option maxHeartbeats 800000 in
 /-- `InvC2` is preserved by every event.  Besides the invariants of the brief it needs `InvG s`
 (ghost grant records belong to released grants), see the head of this file. -/
-theorem invC2_step (c0 : Cfg) (hne : c0.incoming ≠ [] ∨ c0.outgoing ≠ []) (s s' : PSys) (e : Event)
-    (hc : e.cfgOk c0) (h : applyEvent s e = .ok s')
-    (hV : InvV c0 (vsys s)) (hV' : InvV c0 (vsys s')) (hR : InvR s) (hR' : InvR s')
+theorem invC2_step (c0 : Cfg) (s s' : PSys) (e : Event)
+    (h : applyEvent s e = .ok s')
+    (hV : InvV (vsys s)) (hV' : InvV (vsys s')) (hR : InvR s) (hR' : InvR s')
     (hL : InvL s) (hL' : InvL s') (hA : InvA s) (hA' : InvA s')
-    (hB : InvB c0 s) (hB' : InvB c0 s') (hC : InvC c0 s) (g : Grow s s') (hG : InvG s) : InvC2 s' := by
+    (hB : InvB s) (hB' : InvB s') (hC : InvC s) (g : Grow s s') (hG : InvG s) : InvC2 s' := by
   cases e with
   | read r =>
     simp only [applyEvent, ok] at h
